@@ -555,7 +555,7 @@ class Account:
             raise ValueError('An amount is required.')
 
         if broadcast:
-            await self.ledger.broadcast(tx)
+            await self.ledger.broadcast_or_release(tx)
         else:
             await self.ledger.release_tx(tx)
 
